@@ -44,7 +44,10 @@ pub fn structures(tier: &str, seed: u64) -> Vec<Structure> {
         if tier == "thorough" {
             out.extend(ext);
         } else if i == 0 {
-            out.extend(rot(&ext, seed, 2));
+            // quick: the whole extended family for the base configuration, a seed-dependent pair for the others
+            out.extend(ext);
+        } else {
+            out.extend(rot(&ext, seed + i as u64, 2));
         }
     }
     out
